@@ -27,7 +27,7 @@ func register(id, level string, run func(*evid.Run), replay func(json.RawMessage
 // they run in a child process and the parent turns "child died" into an observation.
 // rerun: (property/kind) pairs without a single-case replay.
 var rerun = map[string]bool{
-	"C05/tableset": true, "C08/stmt-overlap": true, "C09/api": true, "C13/conformance": true, "C10/txn-shape": true, "C10/conformance": true,
+	"C05/tableset": true, "C05/restart-during-poll": true, "C08/stmt-overlap": true, "C09/api": true, "C13/conformance": true, "C10/txn-shape": true, "C10/conformance": true,
 	"C14/engine-sequence": true, "C14/odd-names": true, "C17/tls": true, "C17/tlsbin": true, "C18/pool": true,
 }
 
